@@ -211,7 +211,16 @@ def answerXd (extra : Option (List (List Char))) (steps : List String) : String 
   | none => "!bad-xd"
   | some acc => "/".intercalate acc
 
+/-- `c03 fs <fresh>`: a failed save has no effect in the model — a save is a function of the model alone (`toDoc`),
+    there is no process state: saving A again writes the same document (`C03_save_twice_identical`), the corrected
+    model writes what it wrote before, in this and in a fresh process. -/
+def answerFs (fresh : String) : String :=
+  let m : Model Nat := { cells := [], cycles := none, hash := none, filename := [], extra := some [(['o'], 0)] }
+  let again := docKeys (toDoc Codec.id (afterSave emb0 m)) == docKeys (toDoc Codec.id m)
+  s!"again:{boolTok again};b:111;fresh:{if fresh = "1" then "1" else "-"}"
+
 def handle : List String → String
+  | "c03" :: "fs" :: f :: _ => answerFs f
   | "c03" :: "xd" :: "none" :: steps => answerXd none steps
   | "c03" :: "xd" :: k :: rest =>
     match k.toNat? with
